@@ -3,8 +3,75 @@ import os
 from framework import REPO, ROOT
 from props import C09 as e3
 
-TIE = ["Nsq.Tie.ProtoHttp"]
-PROPS = ["Nsq.Props.C10"]
+TIE = ["Nsq.Tie.ProtoHttp", "Nsq.Tie.ProtoHttpFull"]
+PROPS = ["Nsq.Props.C10", "Nsq.Props.C10Full"]
+
+
+def full_leg(ctx, binp, corr_broken):
+    """Round 6: the whole route table, the response envelope, /stats, /info, /config, /debug (`httpx` ops
+    replayed through Nsq.Model.HttpFull.serve) + the model-free well-formed-response oracle."""
+    corpus = os.path.join(ctx.work, "corpusx")
+    os.makedirs(corpus, exist_ok=True)
+    n = 0
+    for sub in ("", "fixed", "known"):
+        d = os.path.join(ROOT, "corpus", "C10", sub)
+        if os.path.isdir(d):
+            for fn in sorted(os.listdir(d)):
+                if fn.endswith(".opsx"):
+                    n += 1
+                    with open(os.path.join(corpus, "%02d_%s_%s" % (n, sub or "min", fn)), "w") as f:
+                        f.write(open(os.path.join(d, fn)).read())
+    N = ctx.budget(1200, 12000)
+    if ctx.replay_in:
+        N = 0
+        if "httpx " not in open(ctx.replay_in).read():
+            return
+        for fn in os.listdir(corpus):
+            os.remove(os.path.join(corpus, fn))
+        with open(os.path.join(corpus, "00_replay.opsx"), "w") as f:
+            f.write(open(ctx.replay_in).read())
+    rc, out = ctx.run_cmd([binp, "-test.run", "^TestVerifE3HTTPFull$", "-test.count=1", "-test.timeout=3000s"],
+                          timeout=3200, env={"VERIF_SEED": ctx.seed, "VERIF_N": N, "VERIF_OUT": ctx.work,
+                                             "VERIF_REPO": REPO, "VERIF_CORPUS": corpus})
+    fails, okl = e3.harness_lines(ctx, out, "httpx")
+    for l in fails:
+        e3.report_oracle_fail(ctx, l.replace("req=httpx|", "req=httpx|", 1))
+    if rc != 0 or (not okl and not fails):
+        ctx.log("httpx harness failed (rc=%s):\n%s" % (rc, out[-3000:]))
+        corr_broken.append("httpx harness exit %s" % rc)
+        if "panic:" in out or "fatal error:" in out:
+            ctx.violation("panic", "the nsqd process died while serving generated HTTP requests (whole-table leg)",
+                          out[-4000:])
+    opsf = os.path.join(ctx.work, "httpx.ops")
+    if not os.path.exists(opsf):
+        return
+    ops = open(opsf).read().splitlines()
+    impl = open(os.path.join(ctx.work, "httpx.impl")).read().splitlines()
+    rc, mout = ctx.driver("e3", stdin_path=opsf, timeout=3000)
+    model = mout.splitlines()
+    ndiff = 0
+    for i, o in enumerate(ops):
+        a = impl[i] if i < len(impl) else "<missing>"
+        b = model[i] if i < len(model) else "<missing>"
+        if o.startswith("httpx "):
+            ctx.count_case(o, nontrivial=True)
+            if len(o) < 300 and i % 97 == 0:
+                ctx.add_sample({"op": o, "impl": a[:300]})
+        if a != b:
+            ndiff += 1
+            if ndiff <= 5:
+                ctx.log("whole-table model/impl disagree on `%s`:\n   impl  %s\n   model %s" % (o[:300], a[:400], b[:400]))
+                corr_broken.append("correspondence httpx: %s" % o[:160])
+                if ndiff == 1:
+                    j = i
+                    while j > 0 and not ops[j].startswith("reset"):
+                        j -= 1
+                    ctx.corr["first_disagreement_httpx"] = {"op": o[:2000], "impl": a[:2000], "model": b[:2000],
+                                                            "history": ops[j:i + 1][-30:]}
+    ctx.diff_lines(impl, model, "httpx")
+    if ctx.replay_in:
+        for o, a, b in zip(ops, impl, model):
+            print("op    %s\n impl  %s\n model %s" % (o[:400], a[:600], b[:600]))
 
 
 def run(ctx):
@@ -92,6 +159,8 @@ def run(ctx):
             if ctx.replay_in:
                 for o, a, b in zip(ops, impl, model):
                     print("op    %s\n impl  %s\n model %s" % (o[:400], a[:600], b[:600]))
+    if binp:
+        full_leg(ctx, binp, corr_broken)
     if (ctx.broken_ties or corr_broken) and not ctx.violations:
         ctx.broken_without_input(ctx.broken_ties + corr_broken,
                                  "search: %d generated operations, the 500/twin-topic/size oracles found no request on "
